@@ -32,7 +32,7 @@ REACH = [("yamlpath/commands/eyaml_rotate_keys.py", "main,validateargs", "eyaml_
          ("yamlpath/eyaml/eyamlprocessor.py", "_find_eyaml_paths,find_eyaml_paths,decrypt_eyaml,encrypt_eyaml,set_eyaml_value,is_eyaml_value", "EYAMLProcessor")]
 SIZES = {"quick": 800, "thorough": 10000}
 REQUIRED_COUNTERS = ["rotations", "secrets_checked", "anchored_secret_docs", "folded_secrets", "no_secret_files", "lookalikes_checked", "backup_runs",
-                     "multi_file_runs", "secrets_with_cr_lf_tab", "secrets_with_split_marker"]
+                     "multi_file_runs", "secrets_with_cr_lf_tab", "secrets_with_split_marker", "dotted_secret_keys", "docs_with_secret_in_merge_source"]
 FAKE = os.path.join(VERIF_ROOT, "tools", "fake-eyaml")
 PLAIN = ["s3cret", "p@ss w0rd", "x", "multi word secret value", "0123456789" * 9, "a:b", "tr=ue",
          "line1\r\nline2\r\nline3", "cr\ronly", "two\nlines", "tab\tsep", "-----BEGIN KEY-----\r\nAAAA\r\n-----END KEY-----"]
@@ -76,11 +76,15 @@ class Gen:
         self.leaves = []          # (kind, plaintext) in document order of *definition sites*
         self.anchor_n = 0
         self.anchors = []         # (name, plaintext)
-        self.n_secret = self.n_look = self.n_folded = self.n_ctl = self.n_marker_split = 0
+        self.n_secret = self.n_look = self.n_folded = self.n_ctl = self.n_marker_split = self.n_dotted = self.n_merge = 0
 
-    def leaf(self, indent, prefix):
+    def leaf(self, indent, prefix, force=None):
         r = self.r
         x = r.random()
+        if force == "secret":
+            x = 0.0
+        elif force == "plain":
+            x = 0.99
         pad = "  " * indent
         if x < 0.32:
             pt = r.choice(PLAIN)
@@ -136,6 +140,12 @@ class Gen:
         r = self.r
         # '&S1' / '&k': keys spelled like an anchor reference (S1 is also the name of the first anchored secret)
         keys = r.sample(["alpha", "beta", "gamma", "delta", "eps", "zeta", '"&S1"', '"&k"'], r.randrange(2, 5))
+        if depth < 2 and r.random() < 0.15:
+            # a key with a path separator inside, next to the plain node its text spells out as a path (db -> password)
+            self.lines.append("%sdb:" % ("  " * indent))
+            self.leaf(indent + 1, "password:", force="plain")
+            self.leaf(indent, '"db.password":', force="secret")
+            self.n_dotted += 1
         for k in keys:
             x = r.random()
             if depth < 2 and x < 0.25:
@@ -150,6 +160,24 @@ class Gen:
 
     def build(self, want_secret=True):
         self.lines = ["---"]
+        if self.r.random() < 0.15:
+            # a mapping that other mappings merge with <<, holding an anchored secret: inheritors must keep inheriting
+            # it (no own copy of the key appears in them) and the key order they show must stay
+            self.lines.append("mbase: &MB")
+            self.leaf(1, "host:", force="plain")
+            pt = self.r.choice(PLAIN[:7])
+            self.n_secret += 1
+            self.n_merge += 1
+            self.lines.append("  password: &MP %s" % enc("old", pt))
+            self.leaves.append(("secret", pt))
+            self.leaf(1, "user:", force="plain")
+            self.lines.append("msvc:")
+            self.lines.append("  <<: *MB")
+            self.leaf(1, "extra:", force="plain")
+            self.lines.append("mjobs:")
+            self.lines.append("  - <<: *MB")
+            self.lines.append("    n: 1")
+            self.leaves.append(("plain", "1"))
         self.node(0, 0)
         return "\n".join(self.lines) + "\n"
 
@@ -160,7 +188,7 @@ def scalar_leaves(data):
 
     def walk(n, loc):
         if isinstance(n, dict):
-            for i, (k, v) in enumerate(n.items()):
+            for i, (k, v) in enumerate(yp.own_items(n)):       # what a mapping inherits through << is not its own
                 walk(v, loc + (i,))
         elif isinstance(n, list):
             for i, e in enumerate(n):
@@ -310,7 +338,8 @@ def check_file(ctx, case, fl, r, backup):
 
     def keys_only(n):
         if isinstance(n, dict):
-            return ("map", tuple((str(k), keys_only(v)) for k, v in n.items()))
+            return ("map", tuple(yp.merge_refs(n)), tuple((str(k), keys_only(v)) for k, v in yp.own_items(n)),
+                    tuple(str(k) for k in n.keys()))         # own keys, merge references, and the effective key order
         if isinstance(n, list):
             return ("seq", tuple(keys_only(e) for e in n))
         return "leaf"
@@ -328,6 +357,10 @@ def check_file(ctx, case, fl, r, backup):
         ctx.counters["anchored_secret_docs"] = ctx.counters.get("anchored_secret_docs", 0) + 1
     if g.n_folded:
         ctx.counters["folded_secrets"] = ctx.counters.get("folded_secrets", 0) + g.n_folded
+    if g.n_merge:
+        ctx.counters["docs_with_secret_in_merge_source"] = ctx.counters.get("docs_with_secret_in_merge_source", 0) + 1
+    if g.n_dotted:
+        ctx.counters["dotted_secret_keys"] = ctx.counters.get("dotted_secret_keys", 0) + g.n_dotted
     if g.n_marker_split:
         ctx.counters["secrets_with_split_marker"] = ctx.counters.get("secrets_with_split_marker", 0) + g.n_marker_split
     if g.n_ctl:
